@@ -317,7 +317,7 @@ func runC16(c *Ctx) {
 	for _, s := range storesToField(m.fns, m.T, "prev") {
 		checkWriter(s, "store parser.prev")
 	}
-	for _, s := range storesToField(m.fns, m.T, "peeked") {
+	for _, s := range m.stores("peeked") {
 		if s.fn == m.peek {
 			if cst, ok := s.store.Val.(*ssa.Const); ok && cst.Value != nil && cst.Value.String() == "true" {
 				r1.OK("store parser.peeked=true in "+p.FuncName(s.fn), "look-ahead function")
@@ -327,7 +327,7 @@ func runC16(c *Ctx) {
 		checkWriter(s, "store parser.peeked")
 	}
 	// peekToken only in PEEK
-	for _, s := range storesToField(m.fns, m.T, "peekToken") {
+	for _, s := range m.stores("peekToken") {
 		if s.fn != m.peek {
 			r1.Fail(s.store.Pos(), p.FuncName(s.fn), "store parser.peekToken", "the look-ahead slot is filled outside the look-ahead function")
 		}
